@@ -506,6 +506,9 @@ class _FragmentCompiler:
             lhs_masks = LHSMaskCollector()
             lhs_masks.visit_stmt(domain_stmts)
 
+            # The outputs of memory read ports have no reset (in the netlist, either).
+            reset_signals = [signal for signal, _ in lhs_masks.masks() if not signal.reset_less]
+
             if isinstance(fragment, MemoryInstance):
                 for port in fragment._read_ports:
                     if port._domain == domain_name:
@@ -576,10 +579,9 @@ class _FragmentCompiler:
                     emitter.append(f"if {rst}:")
                     with emitter.indent():
                         emitter.append("pass")
-                        for (signal, _) in lhs_masks.masks():
-                            if not signal.reset_less:
-                                signal_index = self.state.get_signal(signal)
-                                emitter.append(f"next_{signal_index} = {signal.init}")
+                        for signal in reset_signals:
+                            signal_index = self.state.get_signal(signal)
+                            emitter.append(f"next_{signal_index} = {signal.init}")
 
                 if isinstance(fragment, MemoryInstance) and async_reset:
                     emitter.append("if clocked:")
